@@ -333,6 +333,67 @@ def weights_region(c, S_own, cap):
     return bad_w > 0
 
 
+def check_design_blocks(ctx, c, desc):
+    """the COO blocks the design-matrix builders store, entry for entry, vs `Model/Design.lean` (driver op `design`): exercises the
+    numpy semantics of arange / tile / repeat written into `Model/PyPrim` on the sizes of this case (the translator ties the
+    expressions themselves to the source; `Props/Design.lean` proves what the entries mean for every size)"""
+    import inspect
+    from dtscalibration import calibrate_utils as cu
+    ixs = fibre.ix_sec(c)
+    xs = np.asarray(c.x, dtype=float)[ixs]
+    nx, nt = len(ixs), c.nt
+    ix0 = [int(np.sum(xs < s)) for s in c.trans_att]        # first reference row at or behind the splice
+    pairs = fibre.match_pairs(c) if not c.double else []
+    sections = fibre.sections_dict(c)
+
+    def pairs_of(M, lo=None, hi=None, off=0):
+        M = M.tocoo() if hasattr(M, "tocoo") else M
+        rc = [(int(r), int(k) - off) for r, k in zip(M.row, M.col) if lo is None or lo <= k < hi]
+        return sorted(rc)
+
+    def model_pairs(b):
+        return sorted(zip(b["row"], b["col"]))
+
+    try:
+        with warnings.catch_warnings(), np.errstate(all="ignore"):
+            warnings.simplefilter("ignore")
+            if c.double:
+                if list(inspect.signature(cu.construct_submatrices).parameters) != ["sections", "nt", "nx", "ds", "trans_att", "x_sec"]:
+                    ctx.skip("construct_submatrices: signature changed, design blocks not compared")
+                    return
+                E, Z_D, Z_gamma, _, Z_TA_fw, Z_TA_bw = cu.construct_submatrices(sections, nt, nx, c.ds, list(c.trans_att), xs)
+                got = dict(d_gamma=pairs_of(Z_gamma), d_d=pairs_of(Z_D), d_e=pairs_of(E))
+                for a in range(len(ix0)):
+                    got[f"d_ta_fw[{a}]"] = pairs_of(Z_TA_fw, 2 * nt * a, 2 * nt * (a + 1), 2 * nt * a)
+                    got[f"d_ta_bw[{a}]"] = pairs_of(Z_TA_bw, 2 * nt * a, 2 * nt * (a + 1), 2 * nt * a)
+            else:
+                mi = np.array(pairs, dtype=int) if pairs else None
+                r = cu.calibration_single_ended_solver(c.ds, sections, c.var_args.get("st_var"), c.var_args.get("ast_var"),
+                                                       solver="external_split", matching_indices=mi, trans_att=list(c.trans_att))
+                got = dict(s_gamma=pairs_of(r["X_gamma"]), s_dalpha=pairs_of(r["X_dalpha"]), s_c=pairs_of(r["X_c"]))
+                for a in range(len(ix0)):
+                    got[f"s_ta[{a}]"] = pairs_of(r["X_TA"], nt * a, nt * (a + 1), nt * a)
+                if pairs:
+                    got["s_ma"] = pairs_of(r["X_m"], 0, 2 + nt)
+                    if ix0:
+                        got["s_mt"] = pairs_of(r["X_m"], 2 + nt, 2 + nt + nt * len(ix0), 2 + nt)
+    except Exception as e:  # noqa: BLE001
+        ctx.skip(f"design blocks not reachable through the solver entry points ({type(e).__name__})")
+        return
+    m = ctx.driver().call("design", nt=nt, nx=nx, nm=len(pairs), ix0=ix0)
+    for key, g in got.items():
+        if "[" in key:
+            name, a = key[:-1].split("[")
+            want = model_pairs(m[name][int(a)])
+        else:
+            want = model_pairs(m[key])
+        ctx.count("design blocks compared")
+        if g != want:
+            first = next((i for i, (u, v) in enumerate(zip(g, want)) if u != v), min(len(g), len(want)))
+            ctx.mismatch(f"Design.{key} (row, col) entries", desc, dict(n=len(want), first=want[first:first + 3]),
+                         dict(n=len(g), first=g[first:first + 3]))
+
+
 def check_wls_case(ctx, c, opts, known_weights=None, compare_full=True):
     """one calibration: model vs code (correspondence) and code vs the Spec optimum (property).  returns the real output"""
     desc = case_desc(c, opts)
@@ -351,6 +412,8 @@ def check_wls_case(ctx, c, opts, known_weights=None, compare_full=True):
     if not caps:
         ctx.mismatch("wls_sparse hook", desc, "called", "not called")
         return out
+    if not opts:
+        check_design_blocks(ctx, c, desc)
     cap = caps[-1]
     p_code, v_code, cov_code = cap["out"][0], cap["out"][1], cap["out"][2]
     # ---------------- correspondence: system, solution, layout
